@@ -1,6 +1,7 @@
 import SciVerif.Tie.Task
 import SciVerif.Model.Fmt
 import SciVerif.Tie.C20Sem
+import SciVerif.Model.Components
 /-!
 Line-protocol driver (Tie B): one request per line on stdin (tab separated), one response line.
 It runs the *executable models*, instantiated with the semantics records Tie A regenerated from
@@ -287,6 +288,31 @@ def handle (line : String) : String :=
   | ["listing", sem, recs] =>
     ",".intercalate ((Report.listing (Rep.semOf sem) (Rep.parseRecs recs)).map fun r => toString r.id)
   | ["sortsem"] => repr Tie.sortSem |>.pretty
+  | ["combine", keys, streams] =>
+    let ks := Pure.lst keys
+    let m := (Pure.lst streams).filterMap fun item => match item.splitOn Pure.RS with
+      | [k, v] => some (k, if v.isEmpty then [] else v.splitOn Pure.GS)
+      | _ => none
+    let cols := ks.map fun k => (m.lookup k).getD []
+    let out := (ks.zip (Comp.combine cols)).toArray.qsort (fun a b => a.1 < b.1)
+    -- a Go map with <= 1 entries is returned as is (keys not in `keys` stay)
+    Pure.US.intercalate (out.toList.map fun (k, l) => k ++ Pure.RS ++ Pure.GS.intercalate l)
+  | ["split", l, bytes] =>
+    let bs := (if bytes.isEmpty then [] else bytes.splitOn ",").filterMap String.toNat?
+    let parts := Comp.split l.toNat! (Comp.scanLines bs [])
+    Pure.US.intercalate (parts.map fun p => ",".intercalate ((Comp.render p).map toString))
+  | ["scanlines", bytes] =>
+    let bs := (if bytes.isEmpty then [] else bytes.splitOn ",").filterMap String.toNat?
+    Pure.US.intercalate ((Comp.scanLines bs []).map fun l => ",".intercalate (l.map toString))
+  | ["select", bits, cols] =>
+    -- cols: US-separated columns, each GS-separated items; an item passes iff it does not contain `bits`
+    let cs := (Pure.lst cols).map fun c => if c.isEmpty then [] else c.splitOn Pure.GS
+    match Comp.select (fun (x : String) => (x.splitOn bits).length == 1) cs with
+    | none => "FAIL"
+    | some rows => Pure.US.intercalate (rows.map fun r => Pure.GS.intercalate r)
+  | ["concat", files] =>
+    let fs := (Pure.lst files).map fun f => (if f.isEmpty then [] else f.splitOn ",").filterMap String.toNat?
+    ",".intercalate ((Comp.concatFiles fs).map toString)
   | ["task.c01search"] =>
     match TaskSim.c01Search taskSem with
     | none => "none"
